@@ -96,6 +96,8 @@ func resetNodePre(d *dag, a *hnode, id int, k int, c *Case, pre []*gEvent) (*hno
 
 func blk0rr(a *hnode, k int) int { return a.blocks[k].RoundReceived() }
 
+var dbgAnchor bool
+
 func runC13(r *Result, thorough bool) {
 	r.Rule = "G1 gossip DAGs with joins / leaves (3-6 validators, joiners whose first events have no other-parent, requests pending inside the activation window at the anchor); a full-history node A and, for several anchors k (every delivered block in thorough mode), a node B reset from A's block k + frame through JSON and fed the rest of the history; " +
 		"all of B's operations also run on the Lean model (Reset, InsertFrameEvent, lower bound); oracle: B's blocks after the anchor = A's blocks of the same index (body hash), same validator-set table from the anchor on, frames of a round identical across nodes with different insertion orders. non-trivial: the reset node delivered >= 2 blocks after the anchor"
@@ -111,7 +113,16 @@ func runC13(r *Result, thorough bool) {
 			o.n0 = 3
 		}
 		o.byz = nil
+		o.eagerJoiner = ci%2 == 1 && o.extra > 0
+		o.eagerPause = o.eagerJoiner && ci%4 == 1
+		o.joinEarly = o.extra > 0 && (ci%3 == 1 || o.eagerJoiner) // joins accepted early: many anchors around and after the joiner's first round
+		if o.eagerJoiner {
+			r.Inc("scenarios_with_a_joiner_babbling_before_its_accepted_round", 1)
+		}
 		o.steps += 120
+		if o.joinEarly {
+			o.steps *= 2 // a long life after the joiner's first round
+		}
 		if ci%2 == 0 {
 			o.staleOp = false
 		}
@@ -180,6 +191,24 @@ func runC13(r *Result, thorough bool) {
 				r.Inc("anchors_with_two_pending_changes", len(multi))
 			}
 			anchors = append(multi, anchors...)
+			// ... and anchors at the very round from which a joiner is a validator
+			for k := 0; k < len(a.blocks)-1; k++ {
+				for j := o.n0; j < len(d.parts); j++ {
+					if fr, ok := a.store.FirstRound(d.parts[j].peer.ID()); ok && fr == a.blocks[k].RoundReceived() {
+						anchors = append([]int{k}, anchors...)
+					}
+				}
+			}
+		}
+		if os.Getenv("DBGC13") != "" {
+			rrs := []int{}
+			for _, b := range a.blocks {
+				rrs = append(rrs, b.RoundReceived())
+			}
+			for j := o.n0; j < len(d.parts); j++ {
+				fr, ok := a.store.FirstRound(d.parts[j].peer.ID())
+				fmt.Fprintln(os.Stderr, "DBG joiner", j, "first round", fr, ok, "last round", a.store.LastRound(), "block rounds", rrs, o.String())
+			}
 		}
 		seen := map[int]bool{}
 		nontrivial := false
@@ -188,6 +217,34 @@ func runC13(r *Result, thorough bool) {
 				continue
 			}
 			seen[k] = true
+			// coverage: anchors at the very round from which a joiner is a validator
+			if frK, err := a.store.GetFrame(a.blocks[k].RoundReceived()); err == nil {
+				for j := o.n0; j < len(d.parts); j++ {
+					if fr, ok := a.store.FirstRound(d.parts[j].peer.ID()); ok && fr == frK.Round {
+						r.Inc("anchors_at_a_joiners_first_round", 1)
+						earlier, inFrame := 0, 0
+						for _, g := range d.events {
+							if g.creator != j {
+								continue
+							}
+							if e, err := a.store.GetEvent(g.ev.Hex()); err == nil && e.VerifRoundReceived() != nil {
+								if *e.VerifRoundReceived() < frK.Round {
+									earlier++
+								} else if *e.VerifRoundReceived() == frK.Round {
+									inFrame++
+								}
+							}
+						}
+						if earlier > 0 {
+							r.Inc("anchors_at_a_joiners_first_round_with_earlier_events", 1)
+							if inFrame == 0 {
+								r.Inc("anchors_at_a_joiners_first_round_with_earlier_events_none_in_frame", 1)
+								dbgAnchor = true
+							}
+						}
+					}
+				}
+			}
 			var pre []*gEvent
 			if ai%2 == 1 {
 				pre = a.order[:rng.Intn(len(a.order)+1)] // an earlier life before the fast-forward
@@ -213,14 +270,30 @@ func runC13(r *Result, thorough bool) {
 				if last, ok := known[id]; ok && g.ev.Index() <= last {
 					continue
 				}
-				if ok, _ := b.run(c, g); !ok {
+				if ok, err := b.run(c, g); !ok {
 					rejected++
+					if dbgAnchor && rejected <= 3 && os.Getenv("DBGC13") != "" {
+						spn, opn := "-", "-"
+						if g.sp != nil {
+							spn = fmt.Sprint(g.sp.name, " inserted=", b.inserted[g.sp.name])
+						}
+						if g.op != nil {
+							opn = fmt.Sprint(g.op.name, " creator ", g.op.creator, " inserted=", b.inserted[g.op.name])
+						}
+						fmt.Fprintln(os.Stderr, "DBG rejected", g.name, "creator", g.creator, "index", g.ev.Index(), "sp", spn, "op", opn, err)
+					}
+				} else if dbgAnchor && g.creator >= o.n0 && os.Getenv("DBGC13") != "" {
+					fmt.Fprintln(os.Stderr, "DBG accepted joiner event", g.name, "index", g.ev.Index())
 				}
 			}
 			b.dumpRounds(c, 0)
 			b.dumpPeerSets(c)
 			b.dumpLast(c)
 			r.Inc("resets", 1)
+			if dbgAnchor && os.Getenv("DBGC13") != "" {
+				fmt.Fprintln(os.Stderr, "DBG anchor", k, "round", a.blocks[k].RoundReceived(), "blocks full", len(a.blocks), "reset", len(b.blocks), "rejected", rejected, o.String())
+			}
+			dbgAnchor = false
 			r.Inc("events_refused_after_reset", rejected)
 			after := 0
 			for _, bb := range b.blocks[1:] {
@@ -258,6 +331,10 @@ func runC13(r *Result, thorough bool) {
 							// received at or before the anchor on the full-history node, yet shipped neither as
 							// a frame event nor inside a root: the reset node receives it again, later
 							shape = "received-before-anchor-not-shipped"
+							if fr, ok := a.store.FirstRound(keys.PublicKeyID(g.ev.Body.Creator)); ok && fr > frA.Round {
+								// the creator only becomes a validator after the anchor: frames give it no root yet
+								shape = "events-of-a-joiner-before-its-first-round"
+							}
 							_, hasRoot := frA.Roots[g.ev.Creator()]
 							first := -1
 							for rd, ps := range frA.PeerSets {
